@@ -29,7 +29,7 @@ const (
 	ctrlAddr = "192.168.1.100:60000"
 )
 
-var classNames = []string{"silence", "valid", "len0", "len1", "len63", "len65", "len128", "len1024", "wrong-serial", "serial-0", "wrong-function", "protocol-00", "protocol-19", "malformed-field", "lenN"}
+var classNames = []string{"silence", "valid", "len0", "len1", "len63", "len65", "len128", "len1024", "wrong-serial", "serial-0", "wrong-function", "function-ff", "protocol-00", "protocol-19", "malformed-field", "lenN"}
 
 // nRegular: the classes a regular scenario draws from; "lenN" (any length 0..1100 but 64, well-formed
 // 64-byte prefix) is only used by the length sweep.
@@ -100,6 +100,9 @@ func build(op *spec.Op, path string, c, k int) []byte {
 	case "wrong-function":
 		d[1] ^= 0x02
 		return d
+	case "function-ff": // beyond every function code the protocol defines
+		d[1] = 0xff
+		return d
 	case "protocol-00":
 		d[0] = 0x00
 		return d
@@ -137,6 +140,10 @@ type observation struct {
 	packets  int
 }
 
+// debugClients: clients are built with debug = true (the driver then prints what it sends and
+// receives; output goes to a discarded stdout). Set per scenario by its body.
+var debugClients = false
+
 func client(path string) uhppote.IUHPPOTE {
 	devices := []uhppote.Device{}
 	switch path {
@@ -146,7 +153,7 @@ func client(path string) uhppote.IUHPPOTE {
 		devices = append(devices, uhppote.Device{DeviceID: serial, Address: types.ControllerAddrFrom(netip.MustParseAddr("192.168.1.100"), 60000), Protocol: "tcp"})
 	}
 	// an explicit broadcast address: the default one is C06's business
-	return uhppote.NewUHPPOTE(types.BindAddr{}, types.BroadcastAddrFrom(netip.MustParseAddr("192.168.1.255"), 60000), types.ListenAddr{}, T, devices, false)
+	return uhppote.NewUHPPOTE(types.BindAddr{}, types.BroadcastAddrFrom(netip.MustParseAddr("192.168.1.255"), 60000), types.ListenAddr{}, T, devices, debugClients)
 }
 
 func scenario(op *spec.Op, path string, maxLen int) e1.Scenario {
@@ -175,6 +182,7 @@ func scenarioY(op *spec.Op, path string, maxLen int, lengths bool, burst bool) e
 	}
 
 	body := func() {
+		debugClients = burst || lengths
 		o = &observation{}
 		cur := o
 		ctrl := &farm.Controller{Addr: ctrlAddr}
@@ -357,7 +365,7 @@ func main() {
 	if r.Worker == "" && r.Replay == "" {
 		e1.Conformance(r)
 	}
-	r.Rule("for each of the 31 directed operations x {broadcast, connected UDP, TCP}: every sequence of datagram classes " + fmt.Sprint(classNames[1:nRegular]) + fmt.Sprintf(" up to length %d (%d for GetStatus, GetCardByID, PutCard), chosen datagram by datagram by the environment, arriving 0.1 T apart (and, for those three operations, every sequence up to length 3 arriving in one instant on the two UDP paths); for GetStatus (thorough: 5 operations) x 3 paths a first datagram of every length 0..1100 but 64 (well-formed 64-byte prefix) followed by a well-formed one;", short, long) + " distinct = distinct (sequence, outcome-kind) labels observed")
+	r.Rule("for each of the 31 directed operations x {broadcast, connected UDP, TCP}: every sequence of datagram classes " + fmt.Sprint(classNames[1:nRegular]) + fmt.Sprintf(" up to length %d (%d for GetStatus, GetCardByID, PutCard), chosen datagram by datagram by the environment, arriving 0.1 T apart (and, for those three operations, every sequence up to length 3 arriving in one instant on the two UDP paths, through a client built with debug = true, as is the client of the length sweep); for GetStatus (thorough: 5 operations) x 3 paths a first datagram of every length 0..1100 but 64 (well-formed 64-byte prefix) followed by a well-formed one;", short, long) + " distinct = distinct (sequence, outcome-kind) labels observed")
 	r.Assume("simulated network vs/net.go models UDP/TCP delivery, deadlines and buffer truncation; its fidelity is validated on the loopback by the E3 replays where registered")
 	r.Assume("reference acceptor and decoder in /verif/spec")
 	r.Finish()
